@@ -199,32 +199,41 @@ Qed.
 Lemma first_fail_empty l : first_fail (script_of []) l = None.
 Proof. induction l; cbn; auto. Qed.
 
+Lemma run_ext (f : flow) (user : bool) (sc sc' : script) :
+  first_fail sc (flow_order f user) = first_fail sc' (flow_order f user) -> run f user sc = run f user sc'.
+Proof.
+  unfold flow_order, run. intro H. apply first_fail_split in H. destruct H as [H1 H2].
+  rewrite !first_failure_of_first_fail, <- H1.
+  destruct (first_fail sc (f_pre f)) as [x|] eqn:P; cbn; [reflexivity|].
+  apply run_items_ext. apply H2. reflexivity.
+Qed.
+
 (* every run equals the run in which only its first failing stage fails *)
 Theorem run_first_failure (f : flow) (user : bool) (sc : script) :
   run f user sc =
-  match first_fail sc (exec_order user (f_items f)) with
+  match first_fail sc (flow_order f user) with
   | Some (s, e) => run f user (script_of [(s, e)])
   | None => run f user (script_of [])
   end.
 Proof.
-  unfold run. destruct (first_fail sc (exec_order user (f_items f))) as [[s e]|] eqn:F.
-  - apply run_items_ext. rewrite F. symmetry. apply first_fail_single.
+  destruct (first_fail sc (flow_order f user)) as [[s e]|] eqn:F.
+  - apply run_ext. rewrite F. symmetry. apply first_fail_single.
     apply first_fail_some in F. tauto.
-  - apply run_items_ext. rewrite F. symmetry. apply first_fail_empty.
+  - apply run_ext. rewrite F. symmetry. apply first_fail_empty.
 Qed.
 
 (* ---- theorems for an arbitrary flow ------------------------------------------------------ *)
 (* a directory the user supplied is never deleted, whatever the stages do *)
 Theorem user_dir_never_deleted_given (f : flow) (sc : script) :
   f_del_user f = false -> o_removed (run f true sc) = false.
-Proof. intro H. unfold run. rewrite H. apply run_items_no_delete. Qed.
+Proof. intro H. unfold run. destruct (first_failure sc (f_pre f)); [reflexivity|]. rewrite H. apply run_items_no_delete. Qed.
 
 (* the temporary directory is gone after every exit that does not happen before the try *)
 Theorem tmp_removed_partial_gen (f : flow) (sc : script) :
   f_del_tmp f = true -> has_fin (f_items f) = true ->
   (forall s, In s (stages_before_fin false (f_items f)) -> sc s = None) ->
   o_removed (run f false sc) = true.
-Proof. intros D HF HS. unfold run. rewrite D. apply run_items_removed; auto. Qed.
+Proof. intros D HF HS. unfold run. destruct (first_failure sc (f_pre f)); [reflexivity|]. rewrite D. apply run_items_removed; auto. Qed.
 
 (* GIVEN the facts "delete flag set on the temporary path, a finally removes the directory,
    no stage call precedes that try": the directory is gone after EVERY exit *)
@@ -237,7 +246,7 @@ Proof.
 Qed.
 
 Example given_satisfiable :
-  let f := mkFlow [Try [SPlain SInputs; STry [SBuildRepo] [(EValueError, AExit 1)]; SPlain SCompile]
+  let f := mkFlow [SConstraints] [Try [SPlain SInputs; STry [SBuildRepo] [(EValueError, AExit 1)]; SPlain SCompile]
                        [(ENoCandidate, AExit 1)] true; Plain SWrite false] false true in
   f_del_tmp f = true /\ has_fin (f_items f) = true /\ stages_before_fin false (f_items f) = [].
 Proof. cbn. auto. Qed.
@@ -285,7 +294,7 @@ Proof. vm_compute. repeat split. Qed.
 (* ---- every failure a handler covers ends in a diagnostic and exit status 1 (C09's demand on
    the command line), from the generated handler table ---------------------------------------- *)
 Theorem cli_covered_failures_exit_1 (user : bool) (sc : script) (s : stage) (e : ecls) :
-  first_fail sc (exec_order user (f_items cli_flow)) = Some (s, e) ->
+  first_fail sc (flow_order cli_flow user) = Some (s, e) ->
   cli_diagnosed user s e = true ->
   o_end (run_cli user sc) = Exit 1.
 Proof.
@@ -326,7 +335,7 @@ Qed.
 
 Example cli_covered_nontrivial :
   let sc := script_of [(SBuildRepo, EValueError); (SCompile, ENoCandidate)] in
-  first_fail sc (exec_order false (f_items cli_flow)) = Some (SBuildRepo, EValueError) /\
+  first_fail sc (flow_order cli_flow false) = Some (SBuildRepo, EValueError) /\
   cli_diagnosed false SBuildRepo EValueError = true.
 Proof. vm_compute. split; reflexivity. Qed.
 
@@ -354,5 +363,9 @@ Theorem bzl_exits_table :
   run_bzl false (script_of [(SCompile, ENoCandidate)]) = mkOut (Uncaught ECompilation) true /\
   run_bzl false (script_of [(SBuildRepo, EValueError)]) = mkOut (Uncaught EValueError) true /\
   run_bzl true (script_of []) = mkOut Done false /\
-  run_bzl true (script_of [(SCompile, ENoCandidate)]) = mkOut (Uncaught ECompilation) false.
+  run_bzl true (script_of [(SCompile, ENoCandidate)]) = mkOut (Uncaught ECompilation) false /\
+  (* exits while the inputs are loaded: before a temporary directory exists *)
+  run_bzl false (script_of [(SInputs, EValueError)]) = mkOut (Uncaught EValueError) true /\
+  run_bzl false (script_of [(SConstraints, EOSError)]) = mkOut (Uncaught EOSError) true /\
+  run_bzl true (script_of [(SConstraints, EOSError)]) = mkOut (Uncaught EOSError) false.
 Proof. vm_compute. repeat split. Qed.
